@@ -21,6 +21,33 @@ def prepare(ctx):
     pass
 
 
+def static_checks(ctx):
+    """Supporting static fact (not a proof): every call of a message constructor in src/cpp that passes a LITERAL capacity next
+    to a locally declared `char buf[M]` passes a capacity <= M. By rtosc_amessage's contract (C02 obligations) such a caller
+    cannot be written past its buffer."""
+    import re, glob
+    from inject_loops import blank_noncode
+    sites, bad = [], []
+    for f in sorted(glob.glob(os.path.join(ctx.repo, "src/cpp/*.cpp"))):
+        src = open(f).read(); code = blank_noncode(src)
+        for m in re.finditer(r"\brtosc_[av]?message\s*\(\s*([A-Za-z_]\w*)\s*,\s*(\d+)\s*,", code):
+            buf, cap = m.group(1), int(m.group(2))
+            decl = None
+            for d in re.finditer(r"\bchar\s+%s\s*\[\s*(\d+)\s*\]" % re.escape(buf), code[:m.start()]):
+                decl = int(d.group(1))
+            line = code.count("\n", 0, m.start()) + 1
+            sites.append((os.path.basename(f), line, buf, cap, decl))
+            if decl is not None and cap > decl:
+                bad.append("%s:%d passes capacity %d for char %s[%d]" % (os.path.basename(f), line, cap, buf, decl))
+    reply = [x for x in sites if x[0] == "ports.cpp" and x[3] == 8192 and x[4] == 8192]
+    res = [{"name": "C02.callers.literal_capacity", "ok": not bad and len(sites) >= 10,
+            "detail": "%d call sites with a literal capacity, %d with a local array declaration checked; offenders: %s" %
+                      (len(sites), sum(1 for x in sites if x[4] is not None), bad or "none")}]
+    if len(reply) < 2 and not bad:
+        ctx.notes.append("C02.callers: RtData::reply/broadcast no longer match the `char buffer[8192]` + literal 8192 shape (supporting fact not established)")
+    return res
+
+
 def obligations(ctx):
     sl = shapes.enumerate_shapes(ctx.tier, ctx.seed)
     if ctx.tier == "quick":
